@@ -492,6 +492,8 @@ func superviseShard(ck *Check, job Job, tier string, shard, nshards int, deadlin
 		what := ""
 		if pth, ok := cs["path"].(string); ok {
 			what = fmt.Sprintf(" while processing %q", pth)
+		} else if pq, ok := cs["path_quoted"].(string); ok {
+			what = " while processing " + pq
 		}
 		v := Violation{
 			Sig:    "crash:" + sigOf(cs),
